@@ -116,9 +116,15 @@ def acceptor_scenario(phase, cut, dribble):
     B = _bytes()
     ae = AE()
     ae.add_supported_context(Verification)
-    ae.acse_timeout = ae.dimse_timeout = ae.network_timeout = T
+    # the timeouts are configured before the server is started or (odd cut offsets) afterwards: what counts is the
+    # AE's value when the peer connects, not when the listener was created
+    late = cut % 2 == 1
+    if not late:
+        ae.acse_timeout = ae.dimse_timeout = ae.network_timeout = T
     before = set(e2e.pynet_threads())
     srv = ae.start_server(("127.0.0.1", 0), block=False)
+    if late:
+        ae.acse_timeout = ae.dimse_timeout = ae.network_timeout = T
     port = srv.socket.getsockname()[1]
     s = socket.create_connection(("127.0.0.1", port))
     s.settimeout(2.0)
